@@ -264,3 +264,25 @@ def coq_sched(s):
             a.append('(PWrite %s)' % ctext(x[1]) if x[0] == 'w' else ('PExit' if x[0] == 'exit' else 'PHangup'))
         ents.append('(%s, %s)' % (clist(a), cnat(j)))
     return clist(ents)
+
+
+def gen_sched_unicode(rng, n, exits=True):
+    """a peer that writes multi-byte characters whole or in PIECES (a character split over two writes, the second coming later or
+    never)"""
+    chars = ['é'.encode(), '☃'.encode(), b'a', '😀'.encode()]
+    sched = []
+    for _ in range(n):
+        acts = []
+        if rng.random() < 0.45:
+            ch = rng.choice(chars)
+            k = rng.randint(1, len(ch))
+            acts.append(('w', ch[:k]))
+            if k < len(ch):
+                sched.append((acts, rng.choice([0, 1, 5])))
+                for _ in range(rng.choice([0, 0, 2, 6])):          # silence in the middle of the character
+                    sched.append(([], 0))
+                acts = [('w', ch[k:])]
+        if exits and rng.random() < 0.08:
+            acts.append(('exit',))
+        sched.append((acts, rng.choice([0, 0, 1, 2, 5, 100])))
+    return sched
